@@ -102,21 +102,35 @@ def r03_3(ctx, rr):
         for nm, L in ((seq.key, A), (con.key, B)):
             rr.instances += 1
             rr.check(L.get(fld) == ("var", fld), "%s:field-%s" % (short_fn(nm), fld), "%s must store its parameter `%s` in the field of the same name; found %s" % (nm, fld, tshow(L.get(fld, ("unk", "missing")))), seq.span)
-    # same l in both builders
+    # same l in both builders: identical terms, or equal values on the grid of R11.8
+    GRID = [(n_, u_) for n_ in (0, 1, 2, 3, 7, 64, 1000, 10 ** 6) for u_ in (0, 1, 2, 5, 63, 64, 1000, 1 << 20, (1 << 28) + 5, 1 << 40, (1 << 63) + 12345, (1 << 64) - 1)]
+
+    def l_values(t):
+        return [_ieval(t, {"n": n_, "u": u_}) for n_, u_ in GRID]
+    la, lb = A.get("l", ("unk", "?")), B.get("l", ("unk", "?"))
+    same = la == lb or (None not in l_values(la) and l_values(la) == l_values(lb))
     rr.instances += 1
-    rr.check(A.get("l") == B.get("l"), "EliasFanoBuilder::new~ConcurrentBuilder::new:l", "the two builders compute the number of lower bits differently: %s vs %s" % (tshow(A.get("l", ("unk", "?")))[:200], tshow(B.get("l", ("unk", "?")))[:200]), con.span)
+    rr.check(same, "EliasFanoBuilder::new~ConcurrentBuilder::new:l", "the two builders compute the number of lower bits differently: %s vs %s" % (tshow(la)[:200], tshow(lb)[:200]), con.span)
     for nm, L, bkey in ((seq.key, A, seq), (con.key, B, con)):
         l = L.get("l", ("unk", "?"))
-        # l is an integer floor(log2(u / n)) guarded against n = 0 and u < n (admissible family)
-        fam_ok = False
-        if l[0] == "ite" and l[3] == ("int", 0):
-            t = l[2]
-            if t[0] == "call" and t[1] == "int::ilog2":
-                q = t[2][0]
-                if q[0] == "op" and q[1] == "/" and q[2] == u and mentions(q[3], lambda x: x == n):
-                    fam_ok = True
+        # l = floor(lg(u / n)) for u >= n > 0, 0 for u < n (n = 0 is settled by the space bound, R11.8), computed on
+        # integers (no float conversion anywhere in the term): decided by value on the grid, whatever the shape
+        vals = l_values(l)
+        fam_ok = not mentions(l, lambda x: x[0] == "float" or (x[0] == "cast" and x[1] in ("f64", "f32")))
+        bad_pt = None
+        for (n_, u_), v in zip(GRID, vals):
+            if v is None:
+                fam_ok = False
+                bad_pt = (n_, u_, "not evaluable")
+                break
+            if n_ > 0:
+                want = ((u_ // n_).bit_length() - 1) if u_ >= n_ else 0
+                if v != want:
+                    fam_ok = False
+                    bad_pt = (n_, u_, "l = %d, expected %d" % (v, want))
+                    break
         rr.instances += 1
-        rr.check(fam_ok, "%s:l-formula" % short_fn(nm), "%s: the number of lower bits must be `if u >= n (and n, u > 0) { (u / n).ilog2() } else { 0 }` computed on integers; found %s" % (nm, tshow(l)[:300]), bkey.span)
+        rr.check(fam_ok, "%s:l-formula" % short_fn(nm), "%s: the number of lower bits must be floor(lg(u / n)) for u >= n > 0 and 0 for u < n, computed on integers; found %s (%s)" % (nm, tshow(l)[:300], bad_pt), bkey.span)
         # low bits: new(l, n); high bits: new(n + (u >> l) + c), 1 <= c <= 2
         low = L.get("low_bits", ("unk", "?"))
         rr.instances += 1
@@ -133,7 +147,12 @@ def r03_3(ctx, rr):
     ha, hb = A.get("high_bits"), B.get("high_bits")
     if ha and hb and ha[0] == "call" and hb[0] == "call":
         rr.instances += 1
-        rr.check(ha[2] == hb[2], "EliasFanoBuilder::new~ConcurrentBuilder::new:high-size", "the two builders size the high bits differently: %s vs %s" % (tshow(ha[2][0]), tshow(hb[2][0])), con.span)
+        same_h = ha[2] == hb[2]
+        if not same_h and len(ha[2]) == 1 and len(hb[2]) == 1:
+            va = [_ieval(ha[2][0], {"n": n_, "u": u_}) for n_, u_ in GRID]
+            vb = [_ieval(hb[2][0], {"n": n_, "u": u_}) for n_, u_ in GRID]
+            same_h = None not in va and va == vb
+        rr.check(same_h, "EliasFanoBuilder::new~ConcurrentBuilder::new:high-size", "the two builders size the high bits differently: %s vs %s" % (tshow(ha[2][0]), tshow(hb[2][0])), con.span)
     # build(): fields carried over unchanged
     for path in (r"^dict::elias_fano::EliasFanoBuilder::build$", r"^dict::elias_fano::EliasFanoConcurrentBuilder::build$"):
         b = F.one(path)
